@@ -495,6 +495,12 @@ impl GrammarBuilder {
         }
     }
 
+    /// True if the reference carries a parameter expression other than plain `_`.
+    pub fn has_param_expr(&self, node: NodeRef) -> bool {
+        node.param_id
+            .is_some_and(|id| !self.params.get(id).is_self_ref())
+    }
+
     pub fn node_to_string(&self, node: NodeRef) -> String {
         if node.is_parametric() {
             let param = self.params.get(node.param_id.unwrap());
@@ -601,6 +607,13 @@ impl GrammarBuilder {
     pub fn optional(&mut self, value: NodeRef) -> NodeRef {
         let p = self.new_wrapper_node("", value);
         self.add_rule(p, &[]);
+        self.add_rule(p, &[value]);
+        p
+    }
+
+    /// Fresh symbol with the single rule `fresh ⇦ value`; unlike join() never returns `value`.
+    pub fn wrap(&mut self, value: NodeRef) -> NodeRef {
+        let p = self.new_wrapper_node("", value);
         self.add_rule(p, &[value]);
         p
     }
